@@ -19,7 +19,7 @@ Theorem C14_exit_classification : forall c script,
   (o = Exit UserAbort <-> first_stop_is c script (stop_abort c)) /\
   (o = Raise <-> first_stop_is c script (stop_raise c)) /\
   (o = Exit OptFinished <-> no_stop c script) /\
-  o <> Exit EvalFinished.
+  o <> Exit EvalFinished /\ o <> Exit NestedFailed.
 Proof. intros c script. cbv zeta. rewrite optimizer_step_outcome. apply classification. Qed.
 
 (* the whole observation of a stopped run: what was delivered and emitted before the stopping
